@@ -36,7 +36,7 @@ def wrap(prog, body):
 def chk(obs, exp, what):
     return '    { let o = %s; let e = %s; if o != e { bad += 1; println!("REPLAY-FAIL %s: observed {:?}, expected {:?}", o, e); } }' % (obs, exp, what.replace('"', '\\"').replace('{', '{{').replace('}', '}}'))
 
-SPECS = ['{}', '{:>12}', '{:*<9}', '{:^7.2}', '{:.0}', '{:-^14.3}']
+SPECS = ['{}', '{:>12}', '{:*<9}', '{:^7.2}', '{:.0}', '{:-^14.3}', '{:^6}', '{:^8}', '{:3.2}', '{:2.1}']
 
 def printers(prog, fn):
     L = []
